@@ -39,7 +39,7 @@ def cmd_text(c):
     if k == "check":
         return "(check-sat)"
     if k in ("maximize", "minimize"):
-        return "(%s %s)" % (k, TERMS_SMT[c["x"]])
+        return "(%s %s%s%s)" % (k, TERMS_SMT[c["x"]], (" :id " + c["id"]) if c["id"] else "", " :signed" if c["n"] == 1 else "")
     raise ValueError(k)
 
 
@@ -77,9 +77,9 @@ class TrackSolver(IncrementalTrackingSolver):
 
 def goal_obs(g, ident):
     if g.is_maxsmt_goal():
-        return {"k": "maxsmt", "x": 0, "soft": [[ident[c], int(w.constant_value())] for c, w in g.soft]}
+        return {"k": "maxsmt", "x": 0, "soft": [[ident[c], int(w.constant_value())] for c, w in g.soft], "sg": 0}
     k = "maximize" if g.is_maximization_goal() else "minimize"
-    return {"k": k, "x": ident[g.term()], "soft": []}
+    return {"k": k, "x": ident[g.term()], "soft": [], "sg": 1 if g.signed else 0}
 
 
 def run(ck):
